@@ -160,6 +160,24 @@ pub fn draw_map_pair(rng: &mut Rng, max: usize) -> (Dg, Dg) {
 /// A contiguous digraph with order drawn around a thread count and mixed density.
 pub fn draw_dg(rng: &mut Rng, max: usize) -> Dg {
     let n = draw_order_tail(rng, max);
+    if n > 300 && rng.chance(1, 2) {
+        // giant *and* local / nearly empty: long runs of identical rows, blocks touched once
+        return match rng.below(4) {
+            0 => Dg::cycle(n),
+            1 => Dg::star(n),
+            2 => Dg::path(n),
+            _ => {
+                let mut d = Dg::empty(n);
+                for _ in 0..rng.range(1, 8) {
+                    let (u, w) = (rng.below(n), rng.below(n));
+                    if u != w {
+                        let _ = d.a.insert((u, w));
+                    }
+                }
+                d
+            }
+        };
+    }
     // large digraphs are kept sparse or very dense so that the quadratic operations stay cheap
     let p = if n > 400 { *rng.pick(&[1, 2, 5]) } else if n > 130 { *rng.pick(&[5, 20, 60]) } else { draw_density(rng) };
     random_dg(rng, n, p)
@@ -176,7 +194,7 @@ pub fn draw_top(rng: &mut Rng, tier: Tier, kind: usize) -> TOp {
         0 => {
             // the complement of a sparse giant is dense: cap the order
             let mut d = draw_dg(rng, max);
-            if d.order() > 300 {
+            if d.order() > 700 {
                 d = draw_dg(rng, max.min(36));
             }
             TOp::ListComplement { d }
